@@ -31,7 +31,7 @@ ASSUMPTIONS = [
     "floats, tuples, subscripts and '%' string formatting are outside the Coq model (oracle-only suite 'ext' and the "
     "float part of 'ops' exercise them on the implementation)",
     "parameters are not named like the global placeholders (machine, settings, device, mode, current_player, players, game, true, false)",
-    "a setting is changed through SettingsController.set_setting_value only (its backing machine variable is not written directly)",
+    "a setting is changed through SettingsController.set_setting_value or by writing a VALID value to its backing machine variable (two of the three settings have machine_var: different from their name); invalid raw values and removal of a backing variable are not generated",
     "ZeroDivisionError / unsupported operators escape as AssertionError: not a value, outside the property's claim",
 ]
 LEVEL_TEXT = ("Machine-checked proof (Coq) over a deep embedding of the template expression grammar: MPF's walk, parameterised "
@@ -480,10 +480,14 @@ MVARS = ["mv_a", "mv_b", "mv_c", "mv_d"]
 PVARS = ["pv_a", "pv_b"]
 SETTINGS = {"s_a": {"label": "A", "sort": 1, "key_type": "int", "default": "0",
                     "values": {"0": "zero", "1": "one", "2": "two", "5": "five"}},
-            "s_b": {"label": "B", "sort": 2, "key_type": "str", "default": "lo",
-                    "values": {"lo": "low", "hi": "high", "x": "ex"}}}
-SETTING_VALUES = {"s_a": [0, 1, 2, 5], "s_b": ["lo", "hi", "x"]}
-SETTING_DEFAULT = {"s_a": 0, "s_b": "lo"}
+            # settings whose backing machine variable is NOT named like the setting (machine_var: indirection)
+            "s_b": {"label": "B", "sort": 2, "key_type": "str", "default": "lo", "machine_var": "sb_backing",
+                    "values": {"lo": "low", "hi": "high", "x": "ex"}},
+            "s_c": {"label": "C", "sort": 3, "key_type": "int", "default": "1", "machine_var": "other_name_c",
+                    "values": {"1": "one", "2": "two", "3": "three"}}}
+SETTING_VALUES = {"s_a": [0, 1, 2, 5], "s_b": ["lo", "hi", "x"], "s_c": [1, 2, 3]}
+SETTING_DEFAULT = {"s_a": 0, "s_b": "lo", "s_c": 1}
+SETTING_MV = {"s_a": "s_a", "s_b": "sb_backing", "s_c": "other_name_c"}
 SWITCHES = ["sw_a", "sw_b"]
 MACHINE_CONFIG = {"settings": SETTINGS,
                   "switches": {"sw_a": {"number": "1"}, "sw_b": {"number": "2"}, "s_start": {"number": "3", "tags": "start"}}}
@@ -724,7 +728,7 @@ def env_store(e):
     for n in MVARS:
         st["machine." + n] = ("val", untag(e["mvars"][n])) if n in e["mvars"] else ("val", None)
     for n in SETTINGS:
-        st["settings." + n] = ("val", untag(e["settings"][n]))
+        st["settings." + n] = ("val", untag(e["settings"][n]) if n in e["settings"] else SETTING_DEFAULT[n])
     for n in SWITCHES:
         st["device." + n] = ("val", e["switches"][n])
     for n in PVARS:
@@ -776,8 +780,8 @@ def setup_env(rig, e):
         m.variables.remove_machine_var(n)
     for n, t in e["mvars"].items():
         m.variables.set_machine_var(n, untag(t))
-    for n, t in e["settings"].items():
-        m.settings.set_setting_value(n, untag(t))
+    for n in SETTINGS:
+        m.settings.set_setting_value(n, untag(e["settings"][n]) if n in e["settings"] else SETTING_DEFAULT[n])
     for n, v in e["switches"].items():
         if m.switch_controller.is_active(m.switches[n]) != bool(v):
             rig.machine.switch_controller.process_switch(n, v, logical=True)
@@ -1079,7 +1083,9 @@ def gen_hist(rng, tier, i):
                 env["mvars"][name] = v
         elif kind == "settings":
             v = tagv(rng.choice(SETTING_VALUES[name]))
-            ch = ["set", name, v]
+            # through SettingsController.set_setting_value, or directly through the backing machine variable
+            # (valid values only: the same announcement rule, the same value read)
+            ch = ["set" if rng.random() < 0.5 else "setmv", name, v]
             env["settings"][name] = v
         elif kind == "device":
             v = rng.choice([0, 1])
@@ -1121,7 +1127,7 @@ def apply_env_change(env, ch):
         env["mvars"][ch[1]] = ch[2]
     elif k == "rm":
         env["mvars"].pop(ch[1], None)
-    elif k == "set":
+    elif k in ("set", "setmv"):
         env["settings"][ch[1]] = ch[2]
     elif k == "sw":
         env["switches"][ch[1]] = ch[2]
@@ -1149,6 +1155,8 @@ def apply_real_change(rig, ch):
         m.variables.remove_machine_var(ch[1])
     elif k == "set":
         m.settings.set_setting_value(ch[1], untag(ch[2]))
+    elif k == "setmv":
+        m.variables.set_machine_var(SETTING_MV[ch[1]], untag(ch[2]))
     elif k == "sw":
         m.switch_controller.process_switch(ch[1], ch[2], logical=True)
     elif k == "pv":
@@ -1245,7 +1253,7 @@ def oracle_hist(case, out):
     env = json.loads(json.dumps(case["env"]))
     effective = []
     for ch in case["changes"]:
-        grp = {"mv": "mvars", "rm": "mvars", "set": "settings", "sw": "switches", "pv": "pvars"}[ch[0]]
+        grp = {"mv": "mvars", "rm": "mvars", "set": "settings", "setmv": "settings", "sw": "switches", "pv": "pvars"}[ch[0]]
         old = env[grp].get(ch[1], "absent")
         apply_env_change(env, ch)
         effective.append(old != env[grp].get(ch[1], "absent"))
@@ -1273,7 +1281,7 @@ def oracle_hist(case, out):
 
 
 def chkey(ch):
-    return {"mv": "machine.", "rm": "machine.", "set": "settings.", "sw": "device.", "pv": "player."}[ch[0]] + ch[1]
+    return {"mv": "machine.", "rm": "machine.", "set": "settings.", "setmv": "settings.", "sw": "device.", "pv": "player."}[ch[0]] + ch[1]
 
 
 def cchange(ch):
@@ -1282,7 +1290,7 @@ def cchange(ch):
         return "(CSetMachine %s %s)" % (cstr(ch[1]), cval(ch[2]))
     if k == "rm":
         return "(CRemoveMachine %s)" % cstr(ch[1])
-    if k == "set":
+    if k in ("set", "setmv"):
         return "(CSetSetting %s %s)" % (cstr(ch[1]), cval(ch[2]))
     if k == "sw":
         return "(CSetDevice %s %s %s (VInt %d))" % (cstr("switches"), cstr(ch[1]), cstr("state"), ch[2])
@@ -1319,7 +1327,7 @@ def nontrivial_hist(case, out):
 
 
 def describe_hist(case):
-    return "changes=%d %s" % (len(case["changes"]), "".join(sorted(set(c[0][0] for c in case["changes"]))))
+    return "changes=%d %s" % (len(case["changes"]), ",".join(sorted(set(c[0] for c in case["changes"]))))
 
 
 HDR_HIST = "From C16 Require Import Model.\nDefinition run := hist_run.\nDefinition out_eqb := hist_out_eqb.\n"
